@@ -56,6 +56,8 @@ impl Core {
   /// highest-priority active interrupt.
   pub fn handle_interrupt(&mut self) {
     let interrupts = self.memory.io.get_active_interrupts();
+    #[cfg(feature = "verif")]
+    crate::verif::event(crate::verif::EV_IRQ_SAMPLE, interrupts as u32, 0);
     if interrupts == 0 {
       return;
     }
@@ -113,6 +115,8 @@ impl Core {
     // for timing accuracy, skip five machine cycles
     self.registers.cycles += 5;
 
+    #[cfg(feature = "verif")]
+    crate::verif::event(crate::verif::EV_IRQ_VECTOR, vector, clear as u32);
     self.registers.ip = vector;
   }
 
